@@ -10,8 +10,9 @@ Spec/Conc — the LOCK PROTOCOL property C02 speaks about, written from the prop
     brackets match;
   * `noUserInLock sk`: no user code is called and nothing is yielded while a lock is held — demanded of the collect paths;
   * what "one shared child" means: the child table as a finite map and lookup-or-create on it.
-The checks are evaluated on the CANONICAL code of a skeleton (one object of each kind); `Lemmas/ConcSpec` transports them to
-calls on arbitrary objects.
+The checks are evaluated on the CANONICAL code of a skeleton (one object of each kind) with the code of the LIBRARY callees
+(child construction, the children's samples, describe/collect of a built-in metric) spliced in, so that the rank order is
+checked on the real nested scopes; `Lemmas/ConcSpec` transports them to calls on arbitrary objects.
 -/
 import PromVerif.Lemmas.ConcCompose
 
@@ -72,13 +73,40 @@ def needBlind : List Tok → List Var → List Var
   | .call _ _ :: r, ld => needBlind r ld
   | .yield :: r, ld => needBlind r ld
 
-/-- canonical code of a skeleton: one object of each kind, call markers only -/
-def canonCode (sk : List Sk) : List CMicro := compile (canon 0) noCb sk
-
-/-- canonical code of sub-call `k` of a composite call -/
+/-- canonical code of sub-call `k` of a composite call: one object of each kind, call markers only -/
 def canonCodeK (k : Nat) (sk : List Sk) : List CMicro := compile (canon k) noCb sk
 
-def blindSet (sk : List Sk) : CLabel → Bool := fun x => (needBlind (flatList sk) []).contains x.1
+/-- what the LIBRARY callees run (user callbacks stay opaque markers), so that the scopes they open are checked nested inside
+the caller's:
+  * `childCtor` — `labels()` constructs the child while HOLDING the parent lock; the child's value constructor takes no lock
+    in memory and the global lock in the multiprocess store (`MmapedValue.__init__`);
+  * `samples` — `_multi_samples` asks each child for its samples: `_child_samples` → `value.get()` (+ `get_exemplar()`);
+  * `descFunc` — `register()` calls `describe()` / (auto-describe) `collect()` while HOLDING the registry lock; for a built-in
+    metric the worst case is its `collect()`: `_multi_samples` (parent lock) and the children's `get()` (value / global lock). -/
+def valueReads (bk : Backend) (k : Nat) : List CMicro :=
+  match bk with
+  | .mutex => canonCodeK k MutexValue_get ++ canonCodeK k MutexValue_get_exemplar
+  | .mmap => canonCodeK k MmapedValue_get
+
+def libCb (bk : Backend) : Callee → List CMicro
+  | .childCtor => (match bk with | .mutex => [] | .mmap => canonCodeK 1 MmapedValue_init)
+  | .samples => valueReads bk 2
+  | .descFunc => canonCodeK 3 MetricWrapperBase_multi_samples ++ valueReads bk 4
+  | _ => []
+
+/-- canonical code of a skeleton with the library callees spliced in -/
+def canonCode (bk : Backend) (sk : List Sk) : List CMicro := compile (canon 0) (libCb bk) sk
+
+/-- store labels that must not depend on earlier reads: those of the skeleton itself (sub-call 0) and of the spliced child
+constructor (sub-call 1) -/
+def blindSet (bk : Backend) (sk : List Sk) : CLabel → Bool := fun x =>
+  match x.2 with
+  | 0 => (needBlind (flatList sk) []).contains x.1
+  | 1 => (match bk with
+          | .mutex => false
+          | .mmap => (flatList sk).contains (.call false .childCtor) &&
+                     (needBlind (flatList MmapedValue_init) []).contains x.1)
+  | _ => false
 
 /-- data + iteration discipline of the canonical code for guard predicate `isG` and cell predicate `isX` -/
 def closedB (isG : LockId → Bool) (isX : Var → Bool) (bl : CLabel → Bool) (code : List CMicro) : Bool :=
@@ -91,7 +119,7 @@ def wellLockedCode (bk : Backend) (bl : CLabel → Bool) (code : List CMicro) : 
   allLocks.all (fun g => closedB (isL g) never bl code) &&
   (wfRun (rankOrder rank) code [] == some [])
 
-def wellLockedB (bk : Backend) (sk : List Sk) : Bool := wellLockedCode bk (blindSet sk) (canonCode sk)
+def wellLockedB (bk : Backend) (sk : List Sk) : Bool := wellLockedCode bk (blindSet bk sk) (canonCode bk sk)
 
 /-- no `callUser`, no `yield` while any lock is held (depth = number of open `enter`s) -/
 def noUserInLockToks : List Tok → Nat → Bool
@@ -160,8 +188,8 @@ structure Call (U : Type) where
   lab : CLabel → U
 
 /-- a call of the method with skeleton `sk` -/
-def Call.ofSk {U : Type} (sk : List Sk) (lobj : LockId → Nat) (vobj : Var → Nat) (lab : Var → U) : Call U :=
-  { code0 := canonCode sk, bl0 := blindSet sk, lobj := lobj, vobj := vobj, lab := fun x => lab x.1 }
+def Call.ofSk {U : Type} (bk : Backend) (sk : List Sk) (lobj : LockId → Nat) (vobj : Var → Nat) (lab : Var → U) : Call U :=
+  { code0 := canonCode bk sk, bl0 := blindSet bk sk, lobj := lobj, vobj := vobj, lab := fun x => lab x.1 }
 
 /-- the micro-step code of a call: its canonical code renamed to the objects it is made on -/
 def Call.code {U : Type} (c : Call U) : List (Micro ILock ICell U) :=
